@@ -8,10 +8,10 @@ open SkVerif.C14
 
 /-- a series padded to length `L`: position `i` holds the series value if there is one, else the
 fill value -/
-def padCell (L : Nat) (fill : Rat) (c : Cell) : Cell := (List.range L).map (fun i => c.getD i fill)
+def padCell {α : Type} (L : Nat) (fill : α) (c : List α) : List α := (List.range L).map (fun i => c.getD i fill)
 
 /-- every cell of every instance padded; instances and columns stay where they are -/
-def pad (L : Nat) (fill : Rat) (X : Panel) : Panel := X.map (fun inst => inst.map (padCell L fill))
+def pad {α : Type} (L : Nat) (fill : α) (X : PanelOf α) : PanelOf α := X.map (fun inst => inst.map (padCell L fill))
 
 /-- the values at positions `lo, lo+1, …, hi-1` -/
 def slice (lo hi : Nat) (c : Cell) : Cell := (c.drop lo).take (hi - lo)
@@ -25,10 +25,10 @@ def tabularize (X : Panel) : List (List Rat) := X.map List.flatten
 def columnConcat (X : Panel) : Panel := X.map (fun inst => [inst.flatten])
 
 /-- longest / shortest series of a panel, by membership -/
-def IsMaxLength (X : Panel) (m : Nat) : Prop :=
+def IsMaxLength {α : Type} (X : PanelOf α) (m : Nat) : Prop :=
   (∀ inst ∈ X, ∀ c ∈ inst, c.length ≤ m) ∧ (∃ inst ∈ X, ∃ c ∈ inst, c.length = m)
 
-def IsMinLength (X : Panel) (m : Nat) : Prop :=
+def IsMinLength {α : Type} (X : PanelOf α) (m : Nat) : Prop :=
   (∀ inst ∈ X, ∀ c ∈ inst, m ≤ c.length) ∧ (∃ inst ∈ X, ∃ c ∈ inst, c.length = m)
 
 end SkVerif.C14.Spec
